@@ -140,8 +140,7 @@ def main(ck):
             nontriv += 1 if nt else 0
             for k in keys:
                 dist[k] = dist.get(k, 0) + 1
-            for f in L.fns(p):
-                cells.add((f["par"], f["ret"]))
+            L.cells_of(p, cells)
             if row.get("live") or not row.get("once", True):
                 anomalies += 1
     ck.cov["evaluations"] = len(uniq)
@@ -156,7 +155,8 @@ def main(ck):
     ck.cov["plan"] = [list(x) for x in plan]
     ck.cov["sampled"] = nrandom
     ck.cov["table"] = dict(then_cells=len(T.then_cells()), run_cells=len(T.run_cells()),
-                           callback_classes_exercised=len(cells))
+                           then_cells_exercised=len([c for c in cells if c[0] == "then"]),
+                           run_cells_exercised=len([c for c in cells if c[0] == "run"]))
     marg = {}
     for k, n in dist.items():
         par, state, ret, att, src = k.split("|")
